@@ -98,11 +98,16 @@ CLAIMS = {
             "Decides: flip_msb is an involution fixing 0 and 128 on all 256 values, length-preserving and element-local "
             "(abstract interpretation, bit operations as div/mod identities, translate tables as piecewise-affine runs); "
             "swap_multiples rejects negative and returns on zero before any mutation (all paths) and mutates only by "
-            "two-index swaps (length and multiset preserved); interleave/deinterleave keep the length and their index "
-            "schedule never reads the contents. Does NOT decide: interleave/deinterleave mutual inverseness and "
-            "swap_multiples involution/fixed non-multiples (listed as undecided in evidence).",
-            "Trusted: engine A/B. An unknown mutation idiom is an ANALYSIS-ERROR, not a verdict.",
-            "abstract interpretation over an abstract buffer + structural mutation-idiom and def-use taint rules",
+            "two-index swaps (length and multiset preserved); interleave/deinterleave keep the length, their index "
+            "schedule never reads the contents, and -- by closed-form summarisation of the weave loops over a symbolic "
+            "length 2m+rho (trip counts and per-iteration strides as affine forms) -- each is a total permutation of "
+            "positions and deinterleave undoes interleave copy family by copy family on every parity/emptiness/early-return "
+            "path. Does NOT decide: swap_multiples involution/fixed non-multiples (listed as undecided in evidence).",
+            "Trusted: engine A/B. An unknown mutation idiom or a loop the summariser cannot put in closed form is an "
+            "ANALYSIS-ERROR, not a verdict; a symbolic mismatch is reported only with a concrete length at which the "
+            "instantiated summaries disagree.",
+            "abstract interpretation over an abstract buffer + closed-form loop summarisation (affine trip counts) + "
+            "structural mutation-idiom and def-use taint rules",
             "A+B", "DESIGN.md section 4, C10"),
     "C11": ("proof",
             "server_verification_hash and the published formula (C remainder written through floor-mod) are interpreted "
